@@ -465,6 +465,13 @@ impl Ctx {
         }
     }
 
+    /// VERIF_SURVEY=1 bookkeeping for checks that run fixed lists of cases outside `drive`.
+    pub fn survey_add(&self, sig: &str, detail: &str) {
+        let mut g = self.inner.lock().unwrap();
+        let e = g.survey.entry(sig.to_string()).or_insert((0, detail.to_string()));
+        e.0 += 1;
+    }
+
     /// Survey mode (development aid) for checks with their own search loop.
     pub fn survey_record(&self, f: &Failure) {
         let mut g = self.inner.lock().unwrap();
